@@ -111,14 +111,14 @@ def stepR (id : String) (inp obs : List String) : String :=
 
 /-! buffering cases:
   <id> B <custom> <progs: n (<n> op…)…> <sched: n step…> => T <n> ev… | X
-  op ::= L <seq> <lvl> <derived> <fail> | S | F | V <lvl> | H      step ::= s <g> | r <g>
+  op ::= L <seq> <lvl> <derived> <fail> <stale> | S | F | V <lvl> | H      step ::= s <g> | r <g>
   ev ::= b <g> <i> | d <g> <i> | w <g> <seq> <intact> -/
 open Rivaas.LogBuf in
 def pBOp : P Op := do
   let k ← tok
   if k == "L" then do
-    let seq ← nat; let lvl ← nat; let d ← bool; let f ← bool
-    pure (.log { seq := seq, lvl := lvl, derived := d, fail := f })
+    let seq ← nat; let lvl ← nat; let d ← bool; let f ← bool; let st ← bool
+    pure (.log { seq := seq, lvl := lvl, derived := d, fail := f, stale := st })
   else if k == "S" then pure .startBuffering
   else if k == "F" then pure .flush
   else if k == "V" then Op.setLevel <$> nat
@@ -159,7 +159,7 @@ def stepB (id : String) (inp obs : List String) : String :=
     let m := LogBuf.run Flags.fixed custom progs sched
     let mi := match o with | some tr => tr == m | none => false
     let s := match o with | some tr => LogBuf.specOK custom progs tr | none => false
-    verdict id mi s "-" ("T " ++ toString m.length ++ String.join (m.map encEv))
+    verdict id mi s (if hasStale progs then "K20f" else "-") ("T " ++ toString m.length ++ String.join (m.map encEv))
   | _, _ => s!"{id} bad-case"
 
 def step (line : String) : String :=
